@@ -23,12 +23,22 @@ class SymArr:
         return len(self.e)
 
 
+class StateDependence(Exception):
+    """the benchmark reads or writes module-level mutable state: it is not a function of x alone"""
+
+
 class Translator:
-    def __init__(self, sp, f: Func, n: int):
+    def __init__(self, sp, f: Func, n: int, choices=None, helpers=None, arg=None):
         self.sp, self.f, self.n = sp, f, n
+        self.choices = choices if choices is not None else {}
+        self.where_sites = []
+        self.helpers = helpers or {}
         self.xs = sp.symbols(f"x0:{n}", real=True)
-        need(len(f.params) == 1, f"{f.qual}: benchmark with more than one parameter")
-        self.env: Dict[str, object] = {f.params[0]: SymArr(self.xs)}
+        if arg is None:
+            need(len(f.params) == 1, f"{f.qual}: benchmark with more than one parameter")
+            self.env: Dict[str, object] = {f.params[0]: SymArr(self.xs)}
+        else:
+            self.env = dict(arg)
 
     def err(self, node, what):
         raise AnalysisError(f"AD: unsupported construct in {self.f.qual} line {getattr(node, 'lineno', '?')}: {what}")
@@ -123,6 +133,13 @@ class Translator:
         d = dotted(c.func)
         if c.keywords:
             self.err(c, "keyword arguments")
+        if d == "np.where" and len(c.args) == 3:
+            # a guard inside a benchmark: both alternatives must satisfy the property, so the
+            # caller enumerates the choices; the condition itself is not interpreted
+            key = (c.lineno, c.col_offset)
+            if key not in self.where_sites:
+                self.where_sites.append(key)
+            return self.ev(c.args[1]) if self.choices.get(key, True) else self.ev(c.args[2])
         args = [self.ev(a) for a in c.args]
         un = {"np.sqrt": sp.sqrt, "np.cos": sp.cos, "np.sin": sp.sin, "np.exp": sp.exp, "np.square": lambda t: t ** 2,
               "np.abs": sp.Abs, "np.log": sp.log, "np.tan": sp.tan}
@@ -161,6 +178,25 @@ class Translator:
             return sp.Add(*args[0].e) / len(args[0])
         if d == "float" and len(args) == 1:
             return args[0]
+        if d == "np.where" and len(c.args) == 3:
+            # a guard inside a benchmark: both alternatives must satisfy the property, so the
+            # caller enumerates the choices; the condition itself is not interpreted
+            key = (c.lineno, c.col_offset)
+            if key not in self.where_sites:
+                self.where_sites.append(key)
+            return args[1] if self.choices.get(key, True) else args[2]
+        if d in self.helpers:
+            g = self.helpers[d]
+            for n_ in ast.walk(g.node):
+                if isinstance(n_, (ast.Global, ast.Nonlocal)):
+                    raise StateDependence(f"{self.f.name} calls {d}(), which rebinds module-level state (`{short(n_)}`): "
+                                          f"its value depends on the calls made before, not on x alone")
+            if len(args) != len(g.params):
+                self.err(c, f"helper {d} called with {len(args)} arguments")
+            t = Translator(self.sp, g, self.n, self.choices, self.helpers, arg=dict(zip(g.params, args)))
+            r = t.run()
+            self.where_sites += [k for k in t.where_sites if k not in self.where_sites]
+            return r
         self.err(c, f"call {d or short(c.func)}")
 
     def run(self):
@@ -259,7 +295,7 @@ def rule_ad(ctx: Ctx) -> List[Ob]:
     import sympy as sp
     m = ctx.repo.module("benchmarks")
     funcs = {f.name: f for f in ctx.repo.funcs_in("benchmarks") if f.parent is None}
-    pairs = sorted(n for n in funcs if n + "_grad" in funcs)
+    pairs = sorted(n for n in funcs if n + "_grad" in funcs and not n.startswith("_"))
     need(len(pairs) >= 8, f"AD: only {len(pairs)} benchmark pairs found (8 confirmed)")
     obs: List[Ob] = []
     # export cross-check
@@ -268,36 +304,62 @@ def rule_ad(ctx: Ctx) -> List[Ob]:
     for s in ast.walk(init.tree):
         if isinstance(s, ast.ImportFrom) and s.module and s.module.endswith("benchmarks"):
             exported |= {a.name for a in s.names}
-    for nme in sorted(exported | set(funcs)):
+    for nme in sorted(exported | {k for k in funcs if not k.startswith("_")}):
         base = nme[:-5] if nme.endswith("_grad") else nme
         ok = base in funcs and base + "_grad" in funcs
         if not ok:
             obs.append(Ob("AD", "every exported benchmark has a gradient partner", m.rel, funcs[nme].node.lineno if nme in funcs else 1,
                           f"benchmarks.{nme}", nme, False, f"{nme} has no (function, gradient) partner in benchmarks.py"))
     N = _nmax()
+    helpers = {h.name: h for h in ctx.repo.funcs_in("benchmarks") if h.parent is None}
+
+    def translate(fn, n):
+        """all variants of fn's body: one per combination of np.where alternatives (<= 8)"""
+        t0 = Translator(sp, fn, n, {}, helpers)
+        r0 = t0.run()
+        sites = list(t0.where_sites)
+        if not sites:
+            return [("", r0)]
+        need(len(sites) <= 3, f"AD: more than 3 guards in {fn.qual}")
+        out = []
+        for mask in range(2 ** len(sites)):
+            ch = {k: bool(mask >> i & 1) for i, k in enumerate(sites)}
+            lab = ",".join(f"guard@{k[0]}={'then' if v else 'else'}" for k, v in ch.items())
+            out.append((lab, Translator(sp, fn, n, ch, helpers).run()))
+        return out
     for nm in pairs:
         f, g = funcs[nm], funcs[nm + "_grad"]
         bad, how, dims = None, set(), 0
-        for n in range(1, N + 1):
-            fx = Translator(sp, f, n).run()
-            gx = Translator(sp, g, n).run()
-            dims += 1
-            if isinstance(fx, SymArr):
-                bad = f"n={n}: {nm} returns an array of {len(fx)} values, not a scalar"
-                break
-            if not isinstance(gx, SymArr) or len(gx) != n:
-                bad = f"n={n}: {nm}_grad returns {'a scalar' if not isinstance(gx, SymArr) else str(len(gx)) + ' components'}, expected {n}"
-                break
-            xs = sp.symbols(f"x0:{n}", real=True)
-            for i in range(n):
-                res = sp.diff(fx, xs[i]) - gx.e[i]
-                ok, why, pt = residual_zero(sp, res, xs)
-                how.add(why.split(":")[0])
-                if not ok:
-                    bad = f"n={n}, component {i}: d{nm}/dx{i} - {nm}_grad[{i}] is not identically zero ({why})"
+        try:
+            for n in range(1, N + 1):
+                dims += 1
+                for flab, fx in translate(f, n):
+                    for glab, gx in translate(g, n):
+                        lab = "; ".join(x for x in (flab, glab) if x)
+                        if isinstance(fx, SymArr):
+                            bad = f"n={n}: {nm} returns an array of {len(fx)} values, not a scalar"
+                            break
+                        if not isinstance(gx, SymArr) or len(gx) != n:
+                            bad = f"n={n}: {nm}_grad returns {'a scalar' if not isinstance(gx, SymArr) else str(len(gx)) + ' components'}, expected {n}"
+                            break
+                        xs = sp.symbols(f"x0:{n}", real=True)
+                        for i in range(n):
+                            res = sp.diff(fx, xs[i]) - gx.e[i]
+                            ok, why, pt = residual_zero(sp, res, xs)
+                            how.add(why.split(":")[0])
+                            if not ok:
+                                bad = f"n={n}, component {i}" + (f" [{lab}]" if lab else "") + \
+                                    f": d{nm}/dx{i} - {nm}_grad[{i}] is not identically zero ({why})" + \
+                                    (" -- on the guarded branch the gradient is not the derivative: the guard changes the value at regular points" if lab else "")
+                                break
+                        if bad:
+                            break
+                    if bad:
+                        break
+                if bad:
                     break
-            if bad:
-                break
+        except StateDependence as e:
+            bad = str(e)
         obs.append(ob("AD", f"{nm}_grad is the gradient of {nm} for n = 1..{N}", g, g.node, bad is None,
                       bad or f"{dims} dimensions, all components: " + "; ".join(sorted(how)),
                       construct=f"d {nm} / dx == {nm}_grad  (n = 1..{N})"))
